@@ -35,14 +35,16 @@ def crc_step_exhaustive(tmp, tier, seed, goenv):
 
 
 PROP = {
-    "coq": ["C06", "C06b", "C06c", "C06s", "C06t", "C06d"],
+    "coq": ["C06", "C06b", "C06c", "C06s", "C06t", "C06d", "C06e"],
+    "confirm_scenarios": ['rtuseqbad'],
     "pre": [regen_src],
     "extra": [crc_step_exhaustive, replay_src({'crc'})],
     "exhaustive": True,
     "rule": "CRC: the complete one-byte transition function (2^24 pairs) is compared exhaustively; whole-string, "
             "chunked and acceptance-test entry points on structured and random strings of length 0..300. Client level (scenario rtuflip): valid RTU replies of random valid requests under single-bit flips (all for frames <= 16 bytes, strided above), 24 random bit pairs, 16 random bursts <= 16 bits, 4 random CRC fields, plus the crafted F8 family; each followed by a clean exchange; P = first call not a success and second call a success."
             " Scenario rtufliptail (real deadlines): the reply with its byte count flipped 04->00 is rejected after 5 bytes, its tail arrives 10 ms after the request (inside the 256-character quiet period at 19200 bps); the next exchange must succeed. Scenario rtusess (real deadlines, 9600/19200 bps): three kinds of single-bit corruption that make the client reject the reply before all of its bytes are there (byte count -> 0, unknown function code, exception bit); the tail arrives 5 ms .. (quiet period - 50 ms) after the client took the head off the line, or only after call 1 returned (control); oracle: the extracted timed session model tm_rtu_session on the nominal schedule."
-            " Scenario rtuseq (first clause over sequences): sessions of 2..8 calls on ONE client / one RTU transport (scripted connection; rtuovertcp and rtuoverudp opened on loopback) where a call is fresh, the previous one repeated, the same kind / address / size with other data (all items redrawn, or one bit of the first / last / a random item), the same call for another unit id, under another byte / word order, or at the next address; the peer answers a frame iff it ends with the bit-serial CRC-16 of its preceding bytes; oracle: rtuseq_run of the extracted Model/RtuSeq.v; P = every frame the device received ends with its own CRC-16 (ends_with_crcb of Spec/RtuSeqSpec.v) and every request the device was ready to answer is a success (theorems C06d).",
+            " Scenario rtuseq (first clause over sequences): sessions of 2..8 calls on ONE client / one RTU transport (scripted connection; rtuovertcp and rtuoverudp opened on loopback) where a call is fresh, the previous one repeated, the same kind / address / size with other data (all items redrawn, or one bit of the first / last / a random item), the same call for another unit id, under another byte / word order, or at the next address; the peer answers a frame iff it ends with the bit-serial CRC-16 of its preceding bytes; oracle: rtuseq_run of the extracted Model/RtuSeq.v; P = every frame the device received ends with its own CRC-16 (ends_with_crcb of Spec/RtuSeqSpec.v) and every request the device was ready to answer is a success (theorems C06d)."
+            " Scenario rtuseqbad (second and third clause over sessions and over every RTU-framed transport): sessions of 3..17 calls on ONE client (scripted stream; rtuovertcp and rtuoverudp opened on loopback, one datagram per reply) facing a device that answers every request with a valid reply carrying data of its own, behind a line that damages 1..3 (runs of) replies inside the session - a single bit, two bits, a burst <= 16 bits, another CRC field, or the end cut off -, each followed by at least two exchanges that arrive intact; calls are polls of the same coils / registers, fresh calls, or the previous call under another unit id / encoding; oracle: rtuseqbad_run of the extracted Model/RtuSeqBad.v; P (rtuseqbad_demands, theorems C06e) = no damaged reply is a success, every intact reply is a success with the values of that very reply, and every frame the device received ends with its own CRC-16. The F8 family (a leading part of the damaged reply is a CRC-valid frame) is not drawn here (scenario rtuflip has it).",
     "assumptions": [],
 }
 
